@@ -1,2 +1,208 @@
-(* C18 -- placeholder while the proofs are being written *)
+(* C18 -- demuxes, switches, hubs, splitters and fat-tree FIBs deliver to the right place.
+   Only statements, closed by the lemma that proves them, and their assumptions.
+   Models: Route/Demux.v, Route/Hub.v, Route/FatTree.v, Route/Fib.v (tied to /repo by props/c18.py). *)
+From Coq Require Import ZArith List Bool Arith.
 From ONL Require Import Route.Demux Route.Hub Route.FatTree Route.Fib.
+From ONL Require Import Route.DemuxProofs Route.HubProofs Route.FatTreeProofs Route.FibProofs Route.FatTreeFibProofs.
+Import ListNotations.
+
+(* ---- demuxes and switches -------------------------------------------------------------------- *)
+
+(* FlowDemux: flow f goes to output f; otherwise to the default output; otherwise nowhere *)
+Theorem C18_flowdemux_rule : forall (c : flowdemux_cfg) (f : Z),
+  ((0 <= f < Z.of_nat (fd_nouts c))%Z -> flowdemux true c f = OOut (Z.to_nat f)) /\
+  (~ (0 <= f < Z.of_nat (fd_nouts c))%Z -> fd_default c = true -> flowdemux true c f = ODefault) /\
+  (~ (0 <= f < Z.of_nat (fd_nouts c))%Z -> fd_default c = false -> flowdemux true c f = ONowhere).
+Proof. exact flowdemux_rule. Qed.
+Print Assumptions C18_flowdemux_rule.
+
+(* FIBDemux with any table t (the empty one included), any outputs (none included): the registered end
+   device; else outs[t[f]]; else (port out of range, or flow not in the table) default / nowhere *)
+Theorem C18_fibdemux_rule : forall (c : fibdemux_cfg) (t : list (Z * Z)) (f : Z),
+  fb_fib c = Some t ->
+  (forall d, lookup (fb_ends c) f = Some d -> fibdemux true true c f = OEnd d) /\
+  (lookup (fb_ends c) f = None ->
+     (forall p, lookup t f = Some p -> (0 <= p < Z.of_nat (nouts c))%Z -> fibdemux true true c f = OOut (Z.to_nat p)) /\
+     (forall p, lookup t f = Some p -> (p < - Z.of_nat (nouts c) \/ Z.of_nat (nouts c) <= p)%Z ->
+                fibdemux true true c f = dflt (fb_default c)) /\
+     (lookup t f = None -> fibdemux true true c f = dflt (fb_default c))).
+Proof. exact fibdemux_rule. Qed.
+Print Assumptions C18_fibdemux_rule.
+
+Theorem C18_fibdemux_empty_table : forall c f,
+  fb_fib c = Some [] -> lookup (fb_ends c) f = None -> fibdemux true true c f = dflt (fb_default c).
+Proof. exact fibdemux_empty_table. Qed.
+Print Assumptions C18_fibdemux_empty_table.
+
+Theorem C18_fibdemux_never_raises : forall c t f, fb_fib c = Some t -> forall e, fibdemux true true c f <> OError e.
+Proof. exact fibdemux_total. Qed.
+Print Assumptions C18_fibdemux_never_raises.
+
+(* every packet reaches exactly one output (none when the rule says nowhere), also when the chosen
+   output raises from its own put(): then the exception reaches the caller *)
+Theorem C18_exactly_one_output : forall c raising f,
+  let r := fib_deliveries true true true c raising f in
+  (deliverable (fibdemux true true c f) = true -> fst r = [fibdemux true true c f]) /\
+  (deliverable (fibdemux true true c f) = false -> fst r = []) /\
+  (length (fst r) <= 1) /\
+  (forall i, fibdemux true true c f = OOut i -> In i raising -> snd r = Some KeyError).
+Proof. exact exactly_one_output. Qed.
+Print Assumptions C18_exactly_one_output.
+
+Theorem C18_simple_switch_rule : forall nports f,
+  ((0 <= f < Z.of_nat nports)%Z -> simple_switch true nports f = OOut (Z.to_nat f)) /\
+  (~ (0 <= f < Z.of_nat nports)%Z -> simple_switch true nports f = ONowhere).
+Proof. exact simple_switch_rule. Qed.
+Print Assumptions C18_simple_switch_rule.
+
+(* FairPacketSwitch: scheduler i gets the packet exactly when the FIBDemux rule names egress port i;
+   the flow class is handed to the scheduler and has no influence on the port *)
+Theorem C18_fair_switch_rule : forall (c : fair_cfg) (f : Z),
+  fair_switch true true c f = fibdemux true true (fair_demux_cfg c) f /\
+  (forall i cl, fair_reaches true true c f = Some (i, cl) <-> (fibdemux true true (fair_demux_cfg c) f = OOut i /\ cl = fs_class c f)) /\
+  (forall cls', fair_switch true true {| fs_nports := fs_nports c; fs_fib := fs_fib c; fs_ends := fs_ends c; fs_class := cls' |} f
+                = fair_switch true true c f).
+Proof. exact fair_switch_rule. Qed.
+Print Assumptions C18_fair_switch_rule.
+
+(* ---- hub and splitter ------------------------------------------------------------------------ *)
+
+(* events (endpoint index, through its port device?) of one Hub.put: no index twice; an index occurs
+   iff that endpoint's element_id differs from packet.src, with the port flag of that endpoint *)
+Theorem C18_hub_repeats : forall (s : hub_state) (src : Z),
+  NoDup (map fst (hub_put s src)) /\
+  (forall i v, In (i, v) (hub_put s src) <-> exists e, nth_error s i = Some e /\ ep_id e <> src /\ v = ep_port e) /\
+  (forall i e, nth_error s i = Some e -> ep_id e = src -> ~ In i (map fst (hub_put s src))).
+Proof. exact hub_repeats. Qed.
+Print Assumptions C18_hub_repeats.
+
+Theorem C18_hub_make : forall eids ports,
+  (ports = [] -> hub_make true eids ports = inl (map (fun i => {| ep_id := i; ep_port := false |}) eids)) /\
+  (ports <> [] -> length ports = length eids ->
+     exists s, hub_make true eids ports = inl s /\ length s = length eids /\
+       forall i e, nth_error s i = Some e <->
+                   exists id p, nth_error eids i = Some id /\ nth_error ports i = Some p /\ e = {| ep_id := id; ep_port := p |}) /\
+  (ports <> [] -> length ports <> length eids -> hub_make true eids ports = inr HValueError).
+Proof. exact hub_make_spec. Qed.
+Print Assumptions C18_hub_make.
+
+(* Splitter / NSplitter: see HubProofs.splitter_copies for the reading of the seven clauses *)
+Theorem C18_splitter_copies : forall (att : list bool) (h : heap) (o : nat) (p : pobj),
+  hget h o = Some p ->
+  let h' := fst (splitter_put true att h o) in
+  let ds := snd (splitter_put true att h o) in
+  map fst ds = attached_from 0 att /\
+  (forall o', In (0, o') ds -> o' = o) /\
+  (forall i o', In (i, o') ds -> i <> 0 -> length h <= o' /\ o' <> o /\ hget h' o' = Some p) /\
+  NoDup (map snd ds) /\
+  (forall x, x < length h -> hget h' x = hget h x) /\
+  (forall i1 o1 i2 o2 f v, In (i1, o1) ds -> In (i2, o2) ds -> o1 <> o2 ->
+                           hget (hset h' o1 f v) o2 = hget h' o2) /\
+  (forall i1 o1 f v, In (i1, o1) ds ->
+                     hget (hset h' o1 f v) o1 = Some (set_hdr p f v) /\
+                     forall g, hdr (set_hdr p f v) g = if field_eqb g f then v else hdr p g).
+Proof. exact splitter_copies. Qed.
+Print Assumptions C18_splitter_copies.
+
+(* ---- fat tree, for every even k >= 2 ---------------------------------------------------------- *)
+
+Theorem C18_ft_counts : forall k, Nat.even k = true -> 2 <= k ->
+  length (ft_cores k) = (k / 2) * (k / 2) /\
+  2 * length (ft_aggrs k) = k * k /\
+  2 * length (ft_edgesw k) = k * k /\
+  4 * length (ft_hosts k) = k * k * k /\
+  NoDup (ft_cores k ++ ft_aggrs k ++ ft_edgesw k ++ ft_hosts k) /\
+  length (ft_cores k ++ ft_aggrs k ++ ft_edgesw k ++ ft_hosts k) = ft_nnodes k /\
+  (forall sw, In sw (ft_edgesw k) -> length (hosts_of k sw) = k / 2 /\ forall x, In x (hosts_of k sw) -> In x (ft_hosts k)).
+Proof. exact ft_counts. Qed.
+Print Assumptions C18_ft_counts.
+
+Theorem C18_ft_degrees : forall k, Nat.even k = true -> 2 <= k ->
+  (forall v, In v (ft_switches k) -> degree (ft_edges k) v = k) /\
+  (forall v, In v (ft_hosts k) -> degree (ft_edges k) v = 1).
+Proof. exact ft_degrees. Qed.
+Print Assumptions C18_ft_degrees.
+
+(* hostdist k x y (2, 4 or 6) is the graph distance between hosts x and y of fattree k *)
+Theorem C18_hostdist_is_distance : forall k, Nat.even k = true -> 2 <= k ->
+  forall x y, is_host k x = true -> is_host k y = true ->
+  (forall rest, walkb (ft_edges k) (x :: rest) = true -> last (x :: rest) x = y -> hostdist k x y <= length rest) /\
+  (exists rest, walkb (ft_edges k) (x :: rest) = true /\ last (x :: rest) x = y /\ length rest = hostdist k x y) /\
+  (x <> y -> hostdist k x y = 2 \/ hostdist k x y = 4 \/ hostdist k x y = 6).
+Proof. exact hostdist_is_distance. Qed.
+Print Assumptions C18_hostdist_is_distance.
+
+(* what the per-run Coq check path_ok of every generated path establishes (the part of "shortest path"
+   that is a theorem; that networkx produces such paths is checked per run, not proved) *)
+Theorem C18_path_ok_shortest_partial : forall k src dst p, Nat.even k = true -> 2 <= k -> path_ok k src dst p = true ->
+  exists rest, p = src :: rest /\ last p src = dst /\ walkb (ft_edges k) p = true /\ nodupb p = true /\
+    forall rest', walkb (ft_edges k) (src :: rest') = true -> last (src :: rest') src = dst -> length rest <= length rest'.
+Proof. exact path_ok_shortest. Qed.
+Print Assumptions C18_path_ok_shortest_partial.
+
+(* ---- forwarding tables, any graph ------------------------------------------------------------- *)
+
+Theorem C18_fib_follows_path : forall (nb : nbfun) (tcp : bool) (flows : list flow),
+  (NoDup (map fid flows) /\
+   forall fl, In fl flows -> (0 <= fid fl < 10000)%Z /\ NoDup (fpath fl) /\
+     forall a z, In (a, z) (segs (fpath fl)) -> In z (nb a) /\ (tcp = true -> In a (nb z))) ->
+  exists t, gen_fib nb tcp flows = Some t /\
+    (forall fl i a z, In fl flows -> nth_error (fpath fl) i = Some a -> nth_error (fpath fl) (S i) = Some z ->
+       (exists port, tget t a (fid fl) = Some (port, z) /\ p2n (nb a) port = Some z) /\
+       (tcp = true -> exists rp, tget t z (ack_class (fid fl)) = Some (rp, a) /\ p2n (nb z) rp = Some a)) /\
+    (tcp = false -> forall n c, (10000 <= c)%Z -> tget t n c = None).
+Proof. exact fib_follows_path. Qed.
+Print Assumptions C18_fib_follows_path.
+
+Theorem C18_routed_delivery : forall (nb : nbfun) (tcp : bool) (flows : list flow) (t : table) (nports : nat -> nat),
+  flows_ok nb tcp flows -> gen_fib nb tcp flows = Some t ->
+  forall fl src rest fuel, In fl flows -> fpath fl = src :: rest -> length (fpath fl) <= fuel ->
+    (forall n, In n (fpath fl) -> length (nb n) <= nports n) ->
+    route true true fuel (mk_net nb t flows tcp nports) src (fid fl) [] = Delivered (sink_of (fid fl)) (fpath fl) /\
+    (tcp = true -> forall dst, last_node (fpath fl) = Some dst ->
+       route true true fuel (mk_net nb t flows tcp nports) dst (ack_class (fid fl)) []
+       = Delivered (sink_of (ack_class (fid fl))) (rev (fpath fl))).
+Proof. exact routed_delivery. Qed.
+Print Assumptions C18_routed_delivery.
+
+Theorem C18_fattree_delivery : forall k tcp flows,
+  Nat.even k = true -> 2 <= k ->
+  NoDup (map fid flows) ->
+  (forall fl, In fl flows -> (0 <= fid fl < 10000)%Z /\ exists src dst, path_ok k src dst (fpath fl) = true) ->
+  exists t, gen_fib (nbrs (ft_edges k)) tcp flows = Some t /\
+    forall fl src dst, In fl flows -> path_ok k src dst (fpath fl) = true ->
+      let w := mk_net (nbrs (ft_edges k)) t flows tcp (fun _ => k) in
+      route true true 7 w src (fid fl) [] = Delivered (sink_of (fid fl)) (fpath fl) /\
+      (tcp = true -> route true true 7 w dst (ack_class (fid fl)) [] = Delivered (sink_of (ack_class (fid fl))) (rev (fpath fl))).
+Proof. exact fattree_delivery. Qed.
+Print Assumptions C18_fattree_delivery.
+
+(* ---- the code as found at the pinned commit violates the statements (before the fix: commits) --- *)
+
+Theorem C18_flowdemux_refuted_before_fix :
+  exists c f, (f < 0)%Z /\ flowdemux false c f = OOut 1 /\
+  exists c' f', (f' < 0)%Z /\ flowdemux false c' f' = OError IndexError.
+Proof. exact flowdemux_refuted_before_fix. Qed.
+Print Assumptions C18_flowdemux_refuted_before_fix.
+
+Theorem C18_fibdemux_refuted_before_fix :
+  (exists c f, fb_fib c = Some [] /\ fb_default c = true /\ fibdemux false true c f = OError ValueError) /\
+  (exists c t f, fb_fib c = Some t /\ nouts c = 0 /\ fb_default c = true /\ lookup (fb_ends c) f = None /\
+                 fibdemux true false c f = OError AssertionError).
+Proof. exact fibdemux_refuted_before_fix. Qed.
+Print Assumptions C18_fibdemux_refuted_before_fix.
+
+Theorem C18_exactly_one_refuted_before_fix :
+  exists c raising f, length (fst (fib_deliveries true true false c raising f)) = 2.
+Proof. exact exactly_one_refuted_before_fix. Qed.
+Print Assumptions C18_exactly_one_refuted_before_fix.
+
+Theorem C18_hub_refuted_before_fix : exists eids, eids <> [] /\ hub_make false eids [] = inr HIndexError.
+Proof. exact hub_refuted_before_fix. Qed.
+Print Assumptions C18_hub_refuted_before_fix.
+
+Theorem C18_routed_delivery_refuted_before_fix :
+  exists nb flows t fl, flows_ok nb false flows /\ gen_fib nb false flows = Some t /\ In fl flows /\
+    route false true 5 (mk_net nb t flows false (fun n => length (nb n))) 0 (fid fl) [] = Raised ValueError [0; 1].
+Proof. exact routed_delivery_refuted_before_fix. Qed.
+Print Assumptions C18_routed_delivery_refuted_before_fix.
